@@ -297,8 +297,9 @@ class Evaluator:
                 lam = a[1]
                 doms = []
                 names = []
-                for part in decl.split(','):
-                    nm, ts = [x.strip() for x in part.split(':')]
+                from .core import split_top
+                for part in split_top(decl):
+                    nm, ts = [x.strip() for x in part.split(':', 1)]
                     names.append(nm)
                     doms.append(self.universe.domain(ts))
                 body = lam.body if isinstance(lam, ast.Lambda) else lam
@@ -397,6 +398,7 @@ class Universe:
         self.strs = set()
         self.idents = set()
         self.objs = []
+        self.tuples = set()
         self.maxlen = 0
         self._seen = set()
 
@@ -418,6 +420,8 @@ class Universe:
                 self.add(k, depth + 1)
                 self.add(x, depth + 1)
             return
+        if isinstance(v, tuple) and v and all(isinstance(x, (str, int)) for x in v):
+            self.tuples.add(v)
         if isinstance(v, (list, set, tuple, collections.deque)):
             self.maxlen = max(self.maxlen, len(v))
             for x in list(v):
@@ -447,6 +451,8 @@ class Universe:
             return list(range(-1, self.maxlen + 2))
         if ts == 'bool':
             return [False, True]
+        if ts.startswith('tuple['):
+            return sorted(self.tuples, key=repr)
         return [o for o in self.objs if any(c.__name__ == ts for c in type(o).__mro__)]
 
 
@@ -461,7 +467,28 @@ class Failure:
         return {'kind': self.kind, 'clause': self.clause, 'detail': self.detail, 'inputs': self.inputs}
 
 
-def check_call(contract, func, kwargs, spec_funcs, describe=None, exc_lattice=None):
+class patched_clock:
+    """Pin current_time_millis() (as imported into every loaded zeroconf module) to a chosen value."""
+
+    def __init__(self, value):
+        self.value = value
+        self.saved = []
+
+    def __enter__(self):
+        import sys
+        v = self.value
+        for name, m in list(sys.modules.items()):
+            if m is not None and name.startswith('zeroconf') and hasattr(m, 'current_time_millis'):
+                self.saved.append((m, m.current_time_millis))
+                m.current_time_millis = lambda v=v: v
+        return self
+
+    def __exit__(self, *a):
+        for m, f in self.saved:
+            m.current_time_millis = f
+
+
+def check_call(contract, func, kwargs, spec_funcs, describe=None, exc_lattice=None, clock=None):
     """Run the REAL function on concrete inputs and evaluate the contract.  Returns None (holds), a Failure,
     or 'skip' when the precondition does not hold for this input."""
     ev = Evaluator(spec_funcs)
@@ -483,7 +510,11 @@ def check_call(contract, func, kwargs, spec_funcs, describe=None, exc_lattice=No
     raised = None
     result = None
     try:
-        result = func(**kwargs)
+        if clock is not None:
+            with patched_clock(clock):
+                result = func(**kwargs)
+        else:
+            result = func(**kwargs)
     except Exception as e:   # noqa
         raised = e
     # post-state universe: add new things
@@ -510,7 +541,13 @@ def check_call(contract, func, kwargs, spec_funcs, describe=None, exc_lattice=No
             return Failure('raises-exact', 'raises-exact[%s]' % exc, 'returned normally although %s was promised' % exc, desc)
     env2 = dict(env)
     env2['result'] = result
+    ghosts = set(getattr(contract, 'ghost_out', {}) or {})
+    if clock is not None and 'now' in ghosts:
+        env2['now'] = clock
+        ghosts.discard('now')
     for i, e in enumerate(contract.ensures):
+        if ghosts and any(isinstance(x, ast.Name) and x.id in ghosts for x in ast.walk(ast.parse(e.strip(), mode='eval'))):
+            continue      # clause mentions a function-local ghost (e.g. the clock value read inside): not evaluable
         try:
             ok = ev.eval(e, env2, snap, False)
         except SpecError:
